@@ -13,8 +13,12 @@ NOKVP = [s.replace("ignore", "no-kvp").replace("IGNORE", "NO-KVP") for s in IGN]
 NOND = ["// note", "// breadlog:ignore please", "// breadlog:ignored", "/// breadlog:ignore", "/* breadlog: ignore */", "// breadlog:no-kvp x"]
 BLANK = ["", "   ", "\t"]
 CODE = ["let a = 1;"]
+# a directive comment that trails code on the nearest non-blank line before the statement is still "a comment on that line"
+TRAILING_ON_CODE = [("let a = 1; // breadlog:ignore", "ignore"), ("let a = 1; /* breadlog:no-kvp */", "no-kvp"),
+                    ("let c = '\"'; // breadlog:ignore", "ignore"), ("let s = \"t\"; // breadlog:no-kvp", "no-kvp"),
+                    ("let s = \"first\n        second\"; // breadlog:ignore", "ignore"), ("let a = 1; // breadlog:ignore x", "other")]
 LINES = [(s, "ignore") for s in IGN] + [(s, "no-kvp") for s in NOKVP] + [(s, "other") for s in NOND] + \
-        [(s, "blank") for s in BLANK] + [(s, "code") for s in CODE]
+        [(s, "blank") for s in BLANK] + [(s, "code") for s in CODE] + TRAILING_ON_CODE
 BLOCKS = [(1,), (2,), (1, 1), (1, 2), (2, 1), (2, 2)]
 TRAIL = [None, "same-line", "next-line"]
 INDENT = ["", "    "]
@@ -88,7 +92,7 @@ def run(tier, v):
     pool.close()
     v.count(agg["n"])
     v.coverage["distinct_nontrivial"] += agg["distinct"]
-    v.subspace("all sequences of 0..%d lines from {5 ignore spellings, 5 no-kvp spellings, 6 non-directives, 3 blank lines, code} before statement "
+    v.subspace("all sequences of 0..%d lines from {5 ignore spellings, 5 no-kvp spellings, 6 non-directives, 3 blank lines, code, 6 code lines with a trailing comment} before statement "
                "blocks {1,2,1+1,1+2,2+1,2+2 statements} x trailing directive {none,same line,next line} x eol x style x indentation x macro set; "
                "plus length %d with the other dimensions reduced" % (3 if tier == "thorough" else 2, 4 if tier == "thorough" else 3),
                agg["n"], exhaustive=True, files_with_statements_expected=agg["nonvacuous"])
